@@ -243,7 +243,9 @@ FramesResize(st) ==
       nd == IF SmallInt(v.num_time_frames) /\ SmallInt(v.num_image_data_types) THEN NumDatasets(v) ELSE MaxVector + 1
       er == IF ResizeErr(nd) # NoErr THEN ResizeErr(nd) ELSE ResizeErr(v.num_time_frames) IN
   IF er # NoErr THEN [st EXCEPT !.err = er]
-  ELSE [st EXCEPT !.vars.image_scaling_factors = [i \in 1..nd |-> <<"D">>],       \* every dataset gets ONE factor again
+  ELSE [st EXCEPT !.vars.image_scaling_factors =      \* resize(1, 1.): every data set keeps its first factor or gets the factor 1
+                    [i \in 1..nd |-> IF i <= Len(v.image_scaling_factors) /\ Len(v.image_scaling_factors[i]) >= 1
+                                     THEN <<v.image_scaling_factors[i][1]>> ELSE <<"D">>],
                   !.vars.data_offset = Resize(v.data_offset, nd, [big |-> FALSE, n |-> 0])]
 \* the part of InterfilePDFSHeader::find_storage_order that sets the data shape; a missing
 \* 'matrix size' entry has no first element (reading it is an out-of-bounds access): err MissingMatrixSize
@@ -516,7 +518,7 @@ CommonKeys == <<
   <<"image duration (sec)", Entry("double", 1, "durations", "set")>>,
   <<"maximum pixel count", Ign>>, <<"minimum pixel count", Ign>>,
   <<"image scaling factor", Entry("dlist", 1, "image_scaling_factors", "set")>>,
-  <<"quantification units", Entry("double", 0, "junk", "set_unmodelled")>>,
+  <<"quantification units", J("double")>>,
   <<"number of energy windows", Entry("int", 0, "num_energy_windows", "read_num_energy_windows")>>,
   <<"energy window lower level", Entry("double", 1, "en_low", "set")>>,
   <<"energy window upper level", Entry("double", 1, "en_up", "set")>>,
@@ -565,6 +567,15 @@ PDFSInit == NewState(PDFSKM, PDFSAlias, WithOwnVars(Merge(Merge(PDFSKM, PETKeys)
                                           timing_poss_sequence |-> <<>>, num_segments |-> -1, num_views |-> 0, num_bins |-> 0,
                                           num_timing_poss |-> 1, order_found |-> FALSE])))
 
+\* "support for Louvain la Neuve's extension": 'quantification units' (when not 1) replaces image scaling
+\* factors that are all 1 and must otherwise be equal to all of them (numbers are compared as text)
+IsOne(t) == t \in {"D", "1", "1.", "1.0", "+1"}
+QuantOk(v) ==
+  LET q == v["quantification units"]
+      isf == v.image_scaling_factors IN
+  IF q.none \/ IsOne(q.v) THEN TRUE
+  ELSE IF Len(isf) < 1 \/ Len(isf[1]) < 1 THEN FALSE
+  ELSE \A f \in 1..Len(isf) : \A i \in 1..Len(isf[f]) : IF IsOne(isf[1][1]) THEN IsOne(isf[f][i]) ELSE isf[f][i] = q.v
 \* InterfileHeader::post_processing: the consistency checks every Interfile header must pass
 HdrPostOk(v) ==
   /\ v.patient_orientation >= 0 /\ v.patient_rotation >= 0
@@ -575,6 +586,7 @@ HdrPostOk(v) ==
                                       /\ \A i \in 1..Len(v.matrix_size[d]) : v.matrix_size[d][i] > 0
   /\ \A f \in 1..Len(v.image_scaling_factors) :                 \* "wrong number of image scaling factors"
        Len(v.image_scaling_factors[f]) = 1 \/ Len(v.image_scaling_factors[f]) = v.matrix_size[Len(v.matrix_size)][1]
+  /\ QuantOk(v)
 TypeValid(nf, bpp) == (nf \in {2, 3} /\ bpp \in {1, 2, 4, 8}) \/ (nf = 4 /\ bpp \in {4, 8})
 \* x * y * z * t elements of bpp bytes starting at offset fit into a file of len bytes (no overflow: by division)
 Fits4(x, y, z, t, bpp, offset, len) ==
@@ -620,6 +632,11 @@ PDFSJudge(r, cfg) ==
         fits |-> /\ v.data_file_name = cfg.datafile        \* (a ProjDataFromStream is only opened; a wrong file shows when reading)
                  /\ Len(v.data_offset) >= 1 /\ ~v.data_offset[1].big /\ TypeValid(v.number_format, v.bytes_per_pixel)
                  /\ Fits4(v.num_bins, v.num_views, SumSeq(v.num_rings_per_segment), v.num_timing_poss, v.bytes_per_pixel, v.data_offset[1].n, cfg.datalen)]
+\* The format-independent readers (read_from_file<>, ProjData::read_from_file) first look at the file's
+\* signature: the text before the first ':' of the file must standardise to "interfile"
+SignatureOk(L) == LET t == FoldLeft(LAMBDA a, x : a \o x \o "\n", "", SubSeq(L, 1, IF Len(L) < 3 THEN Len(L) ELSE 3))
+                      c == FirstIn(t, {":"}, 1) IN
+                  c > 0 /\ Standardise(SubSeq(t, 1, c - 1)) = "interfile"
 \* two headers have the same meaning iff their runs end with the same variables
 Relevant(v) == v
 =============================================================================
